@@ -9,6 +9,7 @@ import (
 	"fmt"
 	"hash"
 	"math/rand"
+	"slices"
 	"strconv"
 	"strings"
 	"time"
@@ -60,6 +61,25 @@ func grantedScope(sym, strategy string, rng *rand.Rand) string {
 	}
 
 	return RequiredScope(sym, strategy)
+}
+
+// decoyScope is a scope that looks like the required scope of the symbol without granting it under
+// the strategy in force (a string prefix that is no ancestor, a descendant, a sibling pattern).
+func decoyScope(sym, strategy string, rng *rand.Rand) string {
+	b := scopeBase[sym]
+
+	var forms []string
+
+	switch strategy {
+	case "hierarchic":
+		forms = []string{b[:len(b)-1], b + ".rea", b + ".read.sub", b[:1], b + ".write"}
+	case "wildcard":
+		forms = []string{b[:len(b)-1] + ".*", b + ".rea", b + ".*.x", "*.write", b[:len(b)-1]}
+	default:
+		forms = []string{b + ":rea", b + ":read2", b, b + ".read", b + ":*"}
+	}
+
+	return forms[rng.Intn(len(forms))]
 }
 
 // MechStrategy is the matcher spelling used for the mechanism-level scopes of a catalogue entry.
@@ -167,12 +187,28 @@ func Payload(c *Case, now time.Time) (map[string]any, error) {
 		}
 	}
 
-	if len(t.Scp) != 0 {
+	decoys := []string{}
+
+	if st := EffectiveStrategy(c); len(t.Scp) != 0 || rng.Intn(2) == 0 {
+		for _, sym := range []string{"s1", "s2", "s3"} {
+			if !slices.Contains(t.Scp, sym) && rng.Intn(2) == 0 {
+				decoys = append(decoys, decoyScope(sym, st, rng))
+			}
+		}
+	}
+
+	if len(t.Scp) != 0 || len(decoys) != 0 {
 		st := EffectiveStrategy(c)
 
 		l := make([]string, len(t.Scp))
 		for i, s := range t.Scp {
 			l[i] = grantedScope(s, st, rng)
+		}
+
+		// near misses of the scopes the token does not have: they grant nothing
+		for _, d := range decoys {
+			at := rng.Intn(len(l) + 1)
+			l = append(l[:at], append([]string{d}, l[at:]...)...)
 		}
 
 		switch c.Conc.ScpForm {
